@@ -1306,10 +1306,14 @@ neon_rule_loadupdb (OrcCompiler *compiler, void *user, OrcInstruction *insn)
           orc_arm_emit (compiler, code);
 
           // vext.8 with #imm=1 to create shifted output
-          orc_neon_emit_binary (compiler, "vext.8", 0xf2b00100,
+          ORC_ASM_CODE(compiler,"  vext.8 %s, %s, %s, #1\n",
+            orc_neon_reg_name (compiler->vars[insn->dest_args[0]].alloc+1),
+            orc_neon_reg_name (compiler->vars[insn->dest_args[0]].alloc),
+            orc_neon_reg_name (compiler->vars[insn->dest_args[0]].alloc+1));
+          orc_arm_emit (compiler, NEON_BINARY (0xf2b00100,
             compiler->vars[insn->dest_args[0]].alloc+1,
             compiler->vars[insn->dest_args[0]].alloc,
-            compiler->vars[insn->dest_args[0]].alloc+1);
+            compiler->vars[insn->dest_args[0]].alloc+1));
 
           // select shifted output or not
           orc_neon_emit_binary(compiler, "vbit.8", 0xf3200110,
